@@ -26,6 +26,8 @@ func runC02(w *core.World, r *core.Report) {
 	r.Rule("R1", "page index past the end: error, not a crash or other content (bounds in Sizer/Menu, BrowseError, catch handling)")
 	r.Rule("R2", "lateral entries: Put keeps accepted entries; 'next' offered exactly off the last page, 'previous' exactly off the first (flag protocol of the browse method)")
 	r.Rule("R3", "row grouping typestate: separator between rows, every page with rows emitted and counted, one cursor per page separator, every row appended exactly once")
+	r.Rule("R5", "a lateral move re-executes the node's bytecode: LOAD of a symbol that is already loaded calls no external code (C05 R1)")
+	r.Rule("R6", "the renderer carries nothing from one render to the next: request-state fields of Vm/Page/Menu/Sizer are re-initialised on every path through the resume block (C07 R2)")
 	r.Rule("R4", "plumbing: cursor 0 first, page count (unmodified) / sink value from the grouping, byte cursor applied to the string, page cut at the first separator (offset 0 included), separators agree, rendered index = State.Where")
 
 	// ---- R1 -----------------------------------------------------------------------------------
@@ -46,6 +48,8 @@ func runC02(w *core.World, r *core.Report) {
 	}
 	// ---- R4 -----------------------------------------------------------------------------------
 	checkPagePlumbing(w, r, unit, "R4")
+	checkLoadOnce(w, r, "R5", "the external function behind a sink (or any mapped symbol) runs again on every page flip, with the browse selector as its input: content can change between pages, a loader that validates its input fails and the offered next/previous leads to the catch node instead of the neighbouring page: ")
+	checkResumeReset(w, r, "R6")
 }
 
 // ---------------------------------------------------------------------------------------------
